@@ -161,7 +161,20 @@ def resolve_single(string):
 # ---------------------------------------------------------------------------------------------
 # shared atoms
 
-def random_shared_case(rng, max_heavy, p_share=0.6, ctor=None):
+def kinds_unambiguous_without_labels(case):
+    """two fragments whose descriptors are all of different kinds: the label-insensitive convention
+    (legacy=False) then has exactly one way to pair them, so the result is still determined"""
+    if len(case['members']) != 2:
+        return False
+    for i, mem in case['members'].items():
+        kinds = [x[0] for n in mem for x in case['desc'].get(n, [])]
+        directed = [k for k in kinds if k in '<>']
+        if kinds.count('$') > 1 or kinds.count('!') > 1 or len(directed) > 1:
+            return False
+    return True
+
+
+def random_shared_case(rng, max_heavy, p_share=0.6, ctor=None, label_insensitive=False):
     """-> (shared case, disjoint case) for the same molecule, partition and rng stream"""
     ringy = rng.random() < 0.4
     if ringy:
@@ -188,6 +201,9 @@ def random_shared_case(rng, max_heavy, p_share=0.6, ctor=None):
                         part[n] = i
                 part[hub] = rng.randrange(len(comps)) if rng.random() < 0.5 else len(comps)
                 force = (hub,)
+    if label_insensitive:
+        part = M.partition(rng, g, k=2)
+        force = ()
     if part is None:
         nparts = rng.randint(2, min(len(g), 5))
         part = M.partition(rng, g, k=nparts)
@@ -197,6 +213,8 @@ def random_shared_case(rng, max_heavy, p_share=0.6, ctor=None):
         return None
     dis = M.build_case(rng, g, part)
     if dis is None:
+        return None
+    if label_insensitive and not (kinds_unambiguous_without_labels(case) and kinds_unambiguous_without_labels(dis)):
         return None
     truth = M.truth_graph(g)
     out = []
@@ -245,7 +263,10 @@ def random_shared_case(rng, max_heavy, p_share=0.6, ctor=None):
                membership={str(k): sorted(v) for k, v in membership.items()},
                single='{[#M]}.{#M=%s}' % smiles, nshared=len(case['shared']), natoms_frag=case['natoms_frag'],
                nheavy=len(g), nfrag=nparts, features=sorted(feats),
-               base_string=out[0]['base_string'], frag_string=out[0]['frag_string'], ctor='string')
+               base_string=out[0]['base_string'], frag_string=out[0]['frag_string'], ctor='string',
+               legacy=not label_insensitive)
+    if label_insensitive:
+        res['features'] = sorted(set(res['features']) | {'label_insensitive_convention'})
     return res
 
 
